@@ -226,7 +226,8 @@ def c20_step(run):
                          % (len(vtx), len(d["splines"]), max(s.get("max_excursion", 0) for s in vtx)))
     curves = d.get("curves") or []
     run.cov["evaluations"] += len(curves)
-    run.cov["containment_test_cases"] = {"inside": sum(1 for c in curves if c["expected"] == "inside"), "outside": sum(1 for c in curves if c["expected"] == "outside")}
+    run.cov["containment_test_cases"] = {"inside": sum(1 for c in curves if c["expected"] == "inside"), "outside": sum(1 for c in curves if c["expected"] == "outside"),
+                                         "inside_but_rejected": sum(1 for c in curves if c.get("note"))}
     shown = 0
     for c in curves:
         if c.get("problem") and shown < 3:
